@@ -338,7 +338,18 @@ impl Cell {
             }
         }
         let pose = f.mul(&Fr::new(I3, centre));
-        self.env.push((RMesh::boxm(ho, [0.0; 3], n), pose));
+        let near = RMesh::boxm(ho, [0.0; 3], n);
+        // a fifth of the obstacles are meshes of two disconnected parts: a far part listed first, then
+        // the designed near part (the far part is 4..6 m away along the link's k axis, outside the cell)
+        if rng.bool(0.2) {
+            let far = RMesh::boxm([0.05, 0.05, 0.05], [0.0; 3], if self.fine { 2 } else { 0 });
+            let mut off = [0.0; 3];
+            off[k] = -s * rng.range(4.0, 6.0);
+            // far part first: shift the near part instead so that the far one sits at `off`
+            self.env.push((RMesh::two_parts(&far, off, &near, [0.0; 3]), pose));
+        } else {
+            self.env.push((near, pose));
+        }
         self.env.len() - 1
     }
 
@@ -394,7 +405,7 @@ impl Cell {
     }
 
     pub fn json(&self) -> Value {
-        let mj = |m: &RMesh| json!({"half": m.box_half, "centre": m.box_centre, "vertices": m.verts.len(), "shortest_edge": m.min_leg});
+        let mj = |m: &RMesh| json!({"half": m.box_half, "centre": m.box_centre, "vertices": m.verts.len(), "shortest_edge": m.min_leg, "two_disconnected_parts": m.box_half.is_none()});
         json!({
             "robot": crate::props::robot_json(&self.robot),
             "links": self.links.iter().map(mj).collect::<Vec<_>>(),
